@@ -15,6 +15,59 @@ def sha(b):
     return hashlib.sha1(b).hexdigest()
 
 
+def run_live(ctx, binary, data, n):
+    """The input arrives as one burst and stdin then stays open and silent: the pass-through must not wait for more."""
+    d = ctx.path("live%d" % n)
+    os.makedirs(d)
+    logdir = os.path.join(d, "rec")
+    cfg = os.path.join(d, "cfg.json")
+    with open(cfg, "w") as f:
+        json.dump({"log_events": False, "message_log_directory": logdir}, f)
+    day1 = datetime.date.today().isoformat()
+    p = subprocess.Popen([binary, "-c", cfg], cwd=d, stdin=subprocess.PIPE, stdout=subprocess.PIPE, stderr=subprocess.PIPE)
+    got = bytearray()
+    lock = threading.Lock()
+
+    def rd():
+        while True:
+            b = p.stdout.read1(65536) if hasattr(p.stdout, "read1") else p.stdout.read(1)
+            if not b:
+                return
+            with lock:
+                got.extend(b)
+    t = threading.Thread(target=rd)
+    t.start()
+    p.stdin.write(data)
+    p.stdin.flush()
+    deadline = time.time() + 8
+    while time.time() < deadline:
+        with lock:
+            if len(got) >= len(data):
+                break
+        time.sleep(0.01)
+    with lock:
+        while_open = bytes(got)
+    p.stdin.close()
+    try:
+        rc = p.wait(timeout=60)
+        ret = "" if rc == 0 else "exit %d" % rc
+    except subprocess.TimeoutExpired:
+        p.kill()
+        ret = "timeout"
+    t.join(10)
+    out = bytes(got)
+    day2 = datetime.date.today().isoformat()
+    fbytes, has = b"", False
+    for day in (day1, day2):
+        fn = os.path.join(logdir, "rtcmlogger.%s.rtcm" % day)
+        if os.path.exists(fn):
+            fbytes, has = open(fn, "rb").read(), True
+            break
+    return dict(in_len=len(data), in_sha=sha(data), out_len=len(out), out_sha=sha(out), file_len=len(fbytes), file_sha=sha(fbytes), has_file=has,
+                ret=ret, small=False, pause=False, chunk=len(data), midnight=day1 != day2, live=True, live_complete=while_open == data,
+                live_len=len(while_open), **{"in": [], "out": [], "file": []})
+
+
 def run_logger(ctx, binary, data, seed, chunk, pause_ms, n, paced=False):
     d = ctx.path("run%d" % n)
     os.makedirs(d)
@@ -65,7 +118,7 @@ def run_logger(ctx, binary, data, seed, chunk, pause_ms, n, paced=False):
             break
     small = len(data) <= 1500
     ev = dict(in_len=len(data), in_sha=sha(data), out_len=len(out), out_sha=sha(out), file_len=len(fbytes), file_sha=sha(fbytes), has_file=has,
-              ret=ret, small=small, pause=bool(pause_ms), chunk=chunk, midnight=day1 != day2,
+              ret=ret, small=small, pause=bool(pause_ms), chunk=chunk, midnight=day1 != day2, live=False, live_complete=True, live_len=len(out),
               **{"in": list(data) if small else [], "out": list(out) if small else [], "file": list(fbytes) if small else []})
     return ev
 
@@ -108,6 +161,12 @@ def run(ctx, replay):
             ev = run_logger(ctx, binary, data, seed, chunk, pause, n)
         if not ev["midnight"]:
             events.append(ev)
+    # live pass-through: a burst, then silence on an open stdin (also bursts that exactly fill the 8096-byte block)
+    for k, size in enumerate([100, block, 2 * block, block + 1] + ([3 * block, 8 * block, block - 1] if ctx.thorough() else [])):
+        data = bytes(rng.getrandbits(8) for _ in range(size))
+        ev = run_live(ctx, binary, data, k)
+        if not ev["midnight"]:
+            events.append(ev)
     if not events:
         raise vlib.Inconclusive("no usable run")
     trace = ctx.path("c16.ndjson")
@@ -122,14 +181,15 @@ def run(ctx, replay):
     ctx.sample({k: v for k, v in events[-1].items() if k not in ("in", "out", "file")})
     for i in res["bad"]:
         e = events[i - 1]
-        rec = dict(kind="record-file-incomplete" if e["file_len"] < e["in_len"] else ("stdout-differs" if e["out_sha"] != e["in_sha"] else "other"),
+        rec = dict(kind="pass-through-withheld-while-stdin-open" if e["live"] and not e["live_complete"] else
+                   "record-file-incomplete" if e["file_len"] < e["in_len"] else ("stdout-differs" if e["out_sha"] != e["in_sha"] else "other"),
                    forced_schedule=e["pause"], ret=e["ret"][:20])
         ctx.violation(rec, dict(event={k: v for k, v in e.items() if k not in ("in", "out", "file")}))
     return ctx.finish(
         level="model_checking",
         rule="one case = (input bytes, chunking/timing of stdin, schedule) through the built rtcmlogger binary over OS pipes, exit awaited, record file read afterwards; sizes around "
              "the 8096-byte block (0, 1, 17, 8095, 8096, 8097, 3x8096+5; thorough: up to 200 000), binary content; schedule: the Logger.tla counterexample forced with "
-             "VERIF_PAUSE_rec.write (recorder held before its write while the copy loop reaches EOF and main exits) and free-running; non-trivial = non-empty input",
+             "VERIF_PAUSE_rec.write (recorder held before its write while the copy loop reaches EOF and main exits) free-running, and 'live' runs in which a burst (incl. exactly 1 and 2 blocks) is followed by silence on an open stdin and must appear on stdout within 8 s; non-trivial = non-empty input",
         assumptions=["equality is judged on length and SHA-1 for every run and byte by byte for inputs up to 1500 bytes",
                      "the pause only delays the recorder: on a correct implementation it merely slows the exit",
                      "runs during which the local date changed are dropped"],
